@@ -4,6 +4,11 @@ import json, os
 HERE = os.path.dirname(os.path.dirname(os.path.abspath(__file__)))
 
 CHECKS = {
+ 'C17': dict(
+   category='model_checking',
+   text="HashSem.tla transcribes nutils_hash branch by branch as an injective term encoding Enc(v) with SHA-1 as a constructor and defines behavioural identity Canon(v); Hash.tla builds values (18 base, 14 wrapping actions) and TLC judges Injective/Stable of every value against the whole universe (the name-only type tag of the code is predicted to collide, the qualified tag holds); Intern.tla models the weak intern tables with Construct/Load/Drop/Dump and checks UniqueLive/ExactArgs/SameWhileAlive/TableSound. Every value is materialised in Python and hashed in seven settings (other PYTHONHASHSEEDs, pickle round trips, rebuilds), the real hash-equality table and exported structures of 145 real nutils objects are decided by TLC (HashTable.tla), and intern histories are replayed with identity/argument/table-size comparison after every step.",
+   note="SHA-1 assumed injective; topologies and function arrays are not nutils-hashable and therefore outside; fork not modelled (fresh interpreters instead); mutable buffer ambiguity reported as a note only.",
+   technique="TLA+ term-encoding model + intern-table state machine checked by TLC; value universe materialised and hashed for real; real hash tables validated by TLC"),
  'C15': dict(
    category='model_checking',
    text="MatrixADT.tla models the assemble_csr/coo/block pipeline statement by statement (compress_indices, the three validation tests, backend scatter) and the matrix operations (neg, T, scale, add, sub, submatrix with its cache, pickle through __reduce__) over Gaussian-integer dense denotations; TLC checks AcceptIffValid, Faithful, CompressCorrect, BlockFaithful, PickleFaithful, CacheTransparent, StepsFaithful exhaustively for all small CSR/COO inputs incl. ill-formed ones; every behaviour is replayed on every available backend (numpy, scipy) with the model's denotation, rowsupp, diagonal and products as oracle, and the real export('csr'/'coo') tables are checked by TLC (MatrixExport).",
